@@ -44,9 +44,29 @@ def check_default_impl(chk, F, adt, tag):
     flds = zz.fields_of(F, adt)
     arr = [fl for fl in flds if fl["ty"].get("k") == "array"]
     ok = len(reps) == 1 and len(arr) == 1 and reps[0]["rv"].get("n") == arr[0]["ty"].get("len") and core.op_const_val(reps[0]["rv"]["op"]) is not None
+    if not ok:
+        # ... or it spells out what the derive generates: every member is the `Default::default()` of its own type, a constant,
+        # a full-length constant array or a marker
+        aggs = [s for b, _, s in f.iter_stmts() if s["k"] == "assign" and s["rv"]["k"] == "aggregate" and s["rv"].get("path") == adt and not f.blocks[b]["cleanup"]]
+        if len(aggs) == 1:
+            good = True
+            for fl, op in zip(flds, aggs[0]["rv"]["ops"]):
+                if "PhantomData" in fl["ty"].get("s", ""):
+                    continue
+                if core.op_const_val(op) is not None:
+                    continue
+                o = flow.origin(f, op)
+                if o[0] == "call" and core.strip_generics(core.callee_path(o[2]) or "").endswith("::default") and not o[2]["args"]:
+                    continue
+                ol = core.op_local(op)
+                ds = [d for d in f.defs_of(ol) if not f.blocks[d[0]]["cleanup"]] if ol is not None else []
+                if len(ds) == 1 and ds[0][1] != "term" and ds[0][2]["rv"]["k"] == "repeat" and ds[0][2]["rv"].get("n") == fl["ty"].get("len") and core.op_const_val(ds[0][2]["rv"]["op"]) is not None:
+                    continue
+                good = False
+            ok = good
     chk.ob("W1.default-fills-whole-array", adt + tag, ok,
            "Default for %s is not `[CONST; N]` over the full array (repeat=%s, array len %s)" % (adt, [(r["rv"].get("n"), core.op_const_val(r["rv"]["op"])) for r in reps], [a["ty"].get("len") for a in arr]), where=f.loc())
-    if ok:
+    if ok and len(reps) == 1 and core.op_const_val(reps[0]["rv"]["op"]) is not None:
         chk.note("Default for %s fills %d bytes with %#x" % (adt, reps[0]["rv"]["n"], core.op_const_val(reps[0]["rv"]["op"])))
 
 
